@@ -136,6 +136,11 @@ def observe_select(dialect, text):
     t = a.targets[0]
     if getattr(t, 'alias', None) is not None:
         return ('other', 'alias')
+    # `-<number>`: the MindsDB grammar folds it into the constant, sqlite / mysql keep a unary minus; both denote -n
+    if type(t).__name__ == 'UnaryOperation' and str(t.op) == '-' and len(t.args) == 1 and type(t.args[0]) is A.Constant \
+            and getattr(t.args[0], 'alias', None) is None and type(t.args[0].value) in (int, float):
+        v = t.args[0].value
+        return ('int' if type(v) is int else 'float', -v)
     if type(t) is A.Constant:
         v = t.value
         if isinstance(v, bool):
